@@ -13,8 +13,9 @@ class AsyncoreConnectionDispatcher(YowConnectionDispatcher, asyncore.dispatcher_
         super(AsyncoreConnectionDispatcher, self).__init__(connectionCallbacks)
         asyncore.dispatcher_with_send.__init__(self)
         self._connected = False
-        # out_buffer is written by whichever thread sends and by the thread running asyncore.loop
-        self._send_lock = threading.Lock()
+        # out_buffer is written by whichever thread sends and by the thread running asyncore.loop; the socket may be
+        # closed by any of them and by whoever asks for a disconnect (re-entrant: a failing write ends in handle_close)
+        self._send_lock = threading.RLock()
         # the end of this connection is announced once, by whichever thread notices it first
         self._close_lock = threading.Lock()
         self._closed = False
@@ -29,7 +30,8 @@ class AsyncoreConnectionDispatcher(YowConnectionDispatcher, asyncore.dispatcher_
 
     def initiate_send(self):
         with self._send_lock:
-            asyncore.dispatcher_with_send.initiate_send(self)
+            if self._connected:
+                asyncore.dispatcher_with_send.initiate_send(self)
 
     def connect(self, host):
         logger.debug("connect(%s)" % str(host))
@@ -46,8 +48,10 @@ class AsyncoreConnectionDispatcher(YowConnectionDispatcher, asyncore.dispatcher_
 
     def handle_close(self):
         logger.debug("handle_close")
-        self.close()
-        self._connected = False
+        with self._send_lock:
+            # not while another thread is in the middle of a write, and no write afterwards
+            self._connected = False
+            self.close()
         with self._close_lock:
             first = not self._closed
             self._closed = True
